@@ -259,6 +259,12 @@ impl Printer {
             }
         }
     }
+    fn branch(&mut self, e: &E, out: &mut String) {
+        match e {
+            E::Let(..) | E::Fix(..) | E::If(..) | E::Lam(..) => self.atom(e, out),
+            _ => self.expr(e, out),
+        }
+    }
     fn expr(&mut self, e: &E, out: &mut String) {
         match e {
             E::I => out.push('1'),
@@ -281,7 +287,10 @@ impl Printer {
             E::Let(x, a, b) => {
                 // the binding is not recursive: a is printed outside the scope of x
                 let mut rhs = String::new();
-                self.expr(a, &mut rhs);
+                match **a {
+                    E::Let(..) | E::Fix(..) | E::If(..) => self.atom(a, &mut rhs),
+                    _ => self.expr(a, &mut rhs),
+                }
                 let n = self.bind(*x);
                 out.push_str(&format!("let {} = {} in ", n, rhs));
                 self.expr(b, out);
@@ -297,12 +306,14 @@ impl Printer {
                 self.unbind()
             }
             E::If(c, a, b) => {
+                // let / lambda / if inside a condition or branch are parenthesised (the layout
+                // rule would otherwise extend them over the following keyword)
                 out.push_str("if ");
-                self.expr(c, out);
+                self.branch(c, out);
                 out.push_str(" then ");
-                self.expr(a, out);
+                self.branch(a, out);
                 out.push_str(" else ");
-                self.expr(b, out)
+                self.branch(b, out)
             }
             E::Eq(a, b) => {
                 self.atom(a, out);
@@ -319,7 +330,7 @@ impl Printer {
                         if i > 0 {
                             out.push_str(", ")
                         }
-                        self.expr(e, out)
+                        self.branch(e, out)
                     }
                     out.push(')')
                 } else {
@@ -329,7 +340,7 @@ impl Printer {
                             out.push_str(", ")
                         }
                         out.push_str(&format!("{} = ", label_name(*l)));
-                        self.expr(e, out)
+                        self.branch(e, out)
                     }
                     out.push_str(" }")
                 }
@@ -344,7 +355,7 @@ impl Printer {
                     if i > 0 {
                         out.push_str(", ")
                     }
-                    self.expr(e, out)
+                    self.branch(e, out)
                 }
                 out.push(']')
             }
